@@ -436,11 +436,22 @@ class RequestHandler(BaseProtocol, Generic[_Request]):
         if handler_cancellation and self._task_handler is not None:
             self._task_handler.cancel()
 
-        self._task_handler = None
+        if self._task_handler is not None and not self._task_handler.done():
+            # Without handler_cancellation the handler keeps running (or is
+            # about to be started for a request already received).  Keep the
+            # reference until the task ends: shutdown() needs it to wait for
+            # the handler and to cancel it after the timeout.
+            self._task_handler.add_done_callback(self._forget_task_handler)
+        else:
+            self._task_handler = None
 
         if self._payload_parser is not None:
             self._payload_parser.feed_eof()
             self._payload_parser = None
+
+    def _forget_task_handler(self, task: "asyncio.Task[None]") -> None:
+        if self._task_handler is task:
+            self._task_handler = None
 
     def set_parser(
         self,
